@@ -91,7 +91,10 @@ func (c *Cache[T]) Invalidate(fileName string) {
 func (c *Cache[T]) LoadLatest(
 	fileName string, loader func() (T, error),
 ) (T, error) {
-	stale, lastModified, err := c.IsStale(fileName, c.Entry(fileName))
+	// The entry that is checked is the entry that is returned: looking it up
+	// a second time may find an older one stored meanwhile by a slower reader.
+	entry := c.Entry(fileName)
+	stale, lastModified, err := c.IsStale(fileName, entry)
 	if err != nil {
 		var zero T
 		return zero, err
@@ -106,8 +109,6 @@ func (c *Cache[T]) LoadLatest(
 		c.Store(fileName, data, lastModified)
 		return data, nil
 	}
-	item, _ := c.entries.Load(fileName)
-	entry := item.(Entry[T])
 	return entry.Data, nil
 }
 
